@@ -396,3 +396,14 @@ func genFaultCase(t *rapid.T, f *Format, maxFrames int) FaultCase {
 	}
 	return FaultCase{Stream: s, Faults: faults}
 }
+
+// safeEncodeStream is encodeStream with a panic of the encoder (on the calling goroutine) turned into an error, so that
+// the case is saved and shrunk like any other verdict.
+func safeEncodeStream(s Stream, wantC06 bool) (pk [][]*rtp.Packet, st *rtStats, err error) {
+	defer func() {
+		if r := recover(); r != nil {
+			err = fmt.Errorf("panic in the encoder: %v", r)
+		}
+	}()
+	return encodeStream(s, wantC06)
+}
